@@ -28,12 +28,16 @@ Definition is_str_ty (t : ty) : bool := match t with TyLeaf LStr => true | _ => 
 Definition target_ok (fs : list field) (n : bytes) : bool :=
   forallb (fun fd => implb (eqb_bytes (f_name fd) n) (is_str_ty (f_ty fd))) fs.
 
+Definition is_any_ty (t : ty) : bool := match t with TyAny => true | _ => false end.
+
 (* the member names of a struct are ASCII; no two names it listens to (fields and the legacy members of
-   its hook) are equal up to ASCII case; the fields its hook writes to are strings *)
+   its hook) are equal up to ASCII case; the fields its hook writes to are strings; a field of interface
+   type (which the model does not read: Dom) is `omitempty`, so that its zero value is never written *)
 Definition struct_wfb (h : hook) (fs : list field) : bool :=
   forallb is_ascii (map f_name fs)
   && names_distinct_fold (map f_name fs ++ hook_names h)
-  && forallb (target_ok fs) (hook_targets h).
+  && forallb (target_ok fs) (hook_targets h)
+  && forallb (fun fd => implb (is_any_ty (f_ty fd)) (f_omit fd)) fs.
 
 Fixpoint ty_wfb (t : ty) : bool :=
   match t with
@@ -49,9 +53,10 @@ Fixpoint ty_wfb (t : ty) : bool :=
   | TyRef _ | TyAny | TyObject => true
   end.
 
-(* every named type and every registered schema type is well formed *)
+(* every named type and every registered schema type is well formed; no named type is an interface *)
 Definition env_wfb (E : env) : bool :=
-  forallb (fun kt => ty_wfb (snd kt)) (e_types E) && forallb (fun kt => ty_wfb (snd kt)) (e_schemas E).
+  forallb (fun kt => ty_wfb (snd kt) && negb (is_any_ty (snd kt))) (e_types E)
+  && forallb (fun kt => ty_wfb (snd kt)) (e_schemas E).
 
 (* l is a sub-list of l', in order *)
 Inductive sublist {A} : list A -> list A -> Prop :=
